@@ -140,27 +140,33 @@ def _stubbed(ctx, cfg):
     if canary == "spec-Y-sign":
         O = np.frompyfunc(alg.conj, 1, 1)(O)
     space = state.generate_hilbert_space(n)
-    order = list(range(D))[::-1] + [0]
-    batch = space[order].clone()
-    keep = batch.clone()
-    with N.stubbed(state, "importance_sampling_numerator", num_stub), N.stubbed(state, "importance_sampling_denominator", den_stub):
-        for absolute in (False, True):
-            res = _obs(letter, absolute).apply(state, batch)
-            tag = "abs" if absolute else "signed"
-            ctx.holds("apply/%s/one-real-per-row" % tag, tuple(res.shape) == (len(order),) and all(alg.is_real(x) for x in res._arr), str(tuple(res.shape)))
-            for r, k in enumerate(order):
-                d2 = alg.re(den(k) * alg.conj(den(k)))
-                want = ZERO
-                for kp in range(D):
-                    if O[k, kp].t:
-                        want = want + O[k, kp] * num(kp, k) * alg.conj(den(k))
-                want = alg.re(want)
-                if absolute:
-                    ctx.eq("apply/abs/square == (local estimator)^2[row=%d]" % r, res._arr[r] * res._arr[r] * d2 * d2, want * want, z3_confirm=False)
-                    ctx.nonneg("apply/abs/nonneg[row=%d]" % r, res._arr[r])
-                else:
-                    ctx.eq("apply/signed == Re sum_s' O[s,s'] w(s',s)[row=%d]" % r, res._arr[r] * d2, want, z3_confirm=False)
-    ctx.holds("apply/samples-unchanged", torch.equal(batch, keep) and not isinstance(batch, st.SymTensor))
+    # batches with a repeated row, without repeats in descending order, and without repeats in a rotated order: one value
+    # per row, in the order of the rows
+    orders = [("", list(range(D))[::-1] + [0]), ("distinct-descending/", list(range(D))[::-1]), ("distinct-rotated/", list(range(1, D)) + [0])]
+    unchanged = True
+    for otag, order in orders:
+        batch = space[order].clone()
+        keep = batch.clone()
+        with N.stubbed(state, "importance_sampling_numerator", num_stub), N.stubbed(state, "importance_sampling_denominator", den_stub):
+            for absolute in (False, True):
+                res = _obs(letter, absolute).apply(state, batch)
+                tag = "abs" if absolute else "signed"
+                ctx.holds("apply/" + otag + "%s/one-real-per-row" % tag, tuple(res.shape) == (len(order),) and all(alg.is_real(x) for x in res._arr), str(tuple(res.shape)))
+                for r, k in enumerate(order):
+                    d2 = alg.re(den(k) * alg.conj(den(k)))
+                    want = ZERO
+                    for kp in range(D):
+                        if O[k, kp].t:
+                            want = want + O[k, kp] * num(kp, k) * alg.conj(den(k))
+                    want = alg.re(want)
+                    if absolute:
+                        ctx.eq("apply/" + otag + "abs/square == (local estimator)^2[row=%d]" % r, res._arr[r] * res._arr[r] * d2 * d2, want * want, z3_confirm=False)
+                        ctx.nonneg("apply/" + otag + "abs/nonneg[row=%d]" % r, res._arr[r])
+                    else:
+                        ctx.eq("apply/" + otag + "signed == Re sum_s' O[s,s'] w(s',s)[row=%d]" % r, res._arr[r] * d2, want, z3_confirm=False)
+
+        unchanged = unchanged and torch.equal(batch, keep) and not isinstance(batch, st.SymTensor)
+    ctx.holds("apply/samples-unchanged", unchanged)
 
     # ---- lemma: sum_sigma p(sigma) apply(sigma) == Re tr(rho O) for the arbitrary symbolic state.
     # Step 1 (per state, small): p(s) * [num(s',s) / den(s)] == the matrix element rho(s',s)
